@@ -197,6 +197,7 @@ def install(reg, src):
             c.ensures("empty model, caches None", post)
     reg.PState = PState
     install_vars(reg, src)
+    install_rest(reg, src)
 
 
 # ======================================================================================= C16: variables of a problem
@@ -452,3 +453,126 @@ def install_vars(reg, src):
     reg.assume_varlist_valid = assume_varlist_valid
     reg.NM = NM
     reg.NAMES_OF, reg.NATSORTED, reg.DISTINCT = NAMES_OF, NATSORTED, DISTINCT
+
+
+# ======================================================================================= remaining Problem methods
+def install_rest(reg, src):
+    from .seqtheory import named_forall, named_exists, skolem, add_index
+    ISLIN = sym.fn("ISLIN", sym.Ref, sym.B)      # the answer of is_linear on an (immutable) tree: a function of the tree
+
+    reg.assumption("C13/C08: is_linear(e) is a deterministic function of the immutable tree e (named ISLIN(e)); its soundness "
+                   "(ISLIN(e) => polynomial of degree <= 1 in the LP class) is the proved contract of is_linear")
+
+    def linprob(ip, sp, s):
+        EXPR = sp.S.F("expr", sym.Ref)
+        alllin = named_forall(ip, "ALLLIN", [s.cons], s.ncon, lambda k: ISLIN(EXPR(z3.Select(s.cons, k))))
+        return z3.And(z3.Not(s.obj_none), ISLIN(s.obj), alllin(s.ncon)), alllin
+
+    # is_linear gets the functional clause (only used by callers that need cache exactness)
+    reg.ISLIN = ISLIN
+
+    @reg.contract(f"{M}:{P_}_is_linear_problem", props=["C13", "C08", "C04"], cases={"cache": ["none", "set"], "objective": ["none", "set"]})
+    def _(c):
+        sp = Spec(c.ip)
+        ip = c.ip
+        P = c.arg("self", T.obj("Problem", exact=True))
+        ip.path.assume(z3.Select(st(ip, "Problem._constraints!len", sym.I), P.ref) >= 0)
+        s0 = PState(ip, P)
+        want, alllin = linprob(ip, sp, s0)
+        cnone = s0.cache_none["_is_linear_cache"]
+        cval = z3.Select(st(ip, "Problem._is_linear_cache", sym.B), P.ref)
+        if c.verifying:
+            c.assume(cnone if c.case["cache"] == "none" else z3.Not(cnone))
+            c.assume(s0.obj_none if c.case["objective"] == "none" else z3.Not(s0.obj_none))
+            c.assume(z3.Implies(z3.Not(cnone), cval == want))         # Inv (C13)
+            from .specfns import NODIV0
+            EXPR = sp.S.F("expr", sym.Ref)
+            c.assume(z3.Implies(z3.Not(s0.obj_none), sp.nodiv0(Opaque(s0.obj, "Expression"))))
+            nd_all = named_forall(ip, "CONND0", [s0.cons], s0.ncon, lambda k: NODIV0(EXPR(z3.Select(s0.cons, k))))
+            c.assume(nd_all(s0.ncon))
+            c.loop(1, lambda st_: alllin(st_.i))
+        else:
+            c.requires(z3.Implies(z3.Not(cnone), cval == want), name="cache invariant")
+            havoc_fields(ip, P, ["_is_linear_cache"])
+        c.returns(T.bool_())
+
+        def post(res):
+            now = PState(ip, P)
+            t = res.t if isinstance(res, SBool) else z3.BoolVal(bool(res))
+            nv = z3.Select(st(ip, "Problem._is_linear_cache", sym.B), P.ref)
+            return [t == want, z3.And(z3.Not(now.cache_none["_is_linear_cache"]), nv == want), now.same_model(s0)]
+        c.ensures("answer = linearity of the current model / cached / model untouched", post)
+
+    @reg.contract(f"{M}:{P_}n_variables", props=["C16"])
+    def _(c):
+        ip = c.ip
+        P = c.arg("self", T.obj("Problem", exact=True))
+        if not c.verifying:
+            raise Unsupported("n_variables is only verified, not applied")
+        ip.path.assume(z3.Select(st(ip, "Problem._constraints!len", sym.I), P.ref) >= 0)
+        s0 = PState(ip, P)
+        sp = Spec(ip)
+        cache_base = z3.Select(st(ip, "Problem._variables", sym.Ref), P.ref)
+        vb0 = varlist_base(s0)
+        c.assume(z3.Implies(z3.Not(s0.cache_none["_variables"]), cache_base == vb0))
+        reg.assume_varlist_valid(ip, sp, P, s0, vb0)
+        c.returns(T.int_())
+        c.ensures("length of the variable list", lambda res: num(res) == sym.fn("LEN_any", sym.Ref, sym.I)(vb0))
+
+    def num(v):
+        from pyvc.values import num_term
+        return num_term(v)
+
+    @reg.contract(f"{M}:{P_}get_bounds", props=["C16"])
+    def _(c):
+        ip = c.ip
+        P = c.arg("self", T.obj("Problem", exact=True))
+        if not c.verifying:
+            raise Unsupported("get_bounds is only verified, not applied")
+        ip.path.assume(z3.Select(st(ip, "Problem._constraints!len", sym.I), P.ref) >= 0)
+        s0 = PState(ip, P)
+        sp = Spec(ip)
+        cache_base = z3.Select(st(ip, "Problem._variables", sym.Ref), P.ref)
+        vb0 = varlist_base(s0)
+        c.assume(z3.Implies(z3.Not(s0.cache_none["_variables"]), cache_base == vb0))
+        reg.assume_varlist_valid(ip, sp, P, s0, vb0)
+        n = sym.fn("LEN_any", sym.Ref, sym.I)(vb0)
+        c.returns(T.none())
+
+        def post(res):
+            S_ = ip.models.as_seq(res)
+            sk = skolem(ip, "sk_bound", n)
+            ip.reg.index_used(ip, sk)
+            V = ip.schema.seq_of_base(ip, vb0, "Variable")
+            pair = S_.get(sk)
+            v = V.get(sk)
+            lb, ub = pair
+            wl, wu = ip.getattr(v, "lb"), ip.getattr(v, "ub")
+            same = lambda a, b: z3.And(a.isnone == b.isnone, z3.Implies(z3.Not(a.isnone), real_term(a.val) == real_term(b.val)))
+            return [ip.models.len_term(S_.n) == n, z3.Implies(z3.And(sk >= 0, sk < n), z3.And(same(lb, wl), same(ub, wu)))]
+        c.ensures("bounds of the k-th variable at position k", post)
+
+    METHODS_ALL = ["auto", "linprog", "highs", "highs-ds", "highs-ipm", "SLSQP", "trust-constr", "L-BFGS-B", "BFGS", "Nelder-Mead"]
+
+    @reg.contract(f"{M}:{P_}_auto_select_method", props=["C09", "C08"])
+    def _(c):
+        ip = c.ip
+        sp = Spec(ip)
+        P = c.arg("self", T.obj("Problem", exact=True))
+        ip.path.assume(z3.Select(st(ip, "Problem._constraints!len", sym.I), P.ref) >= 0)
+        s0 = PState(ip, P)
+        if c.verifying:
+            from .specfns import NODIV0
+            EXPR = sp.S.F("expr", sym.Ref)
+            c.assume(z3.Implies(z3.Not(s0.obj_none), sp.nodiv0(Opaque(s0.obj, "Expression"))))
+            nd_all = named_forall(ip, "CONND0", [s0.cons], s0.ncon, lambda k: NODIV0(EXPR(z3.Select(s0.cons, k))))
+            c.assume(nd_all(s0.ncon))
+            c.loop(1, lambda st_: [])
+        c.returns(T.name())
+
+        def post(res):
+            t = ip.models.name_term(res)
+            return [z3.Or(t == sym.lit("L-BFGS-B"), t == sym.lit("trust-constr"), t == sym.lit("SLSQP")),
+                    z3.Implies(t == sym.lit("L-BFGS-B"), s0.ncon == 0),      # never a bounds-only method with constraints
+                    PState(ip, P).same_model(s0)]
+        c.ensures("a constrained-capable method whenever there are constraints", post)
